@@ -53,7 +53,7 @@ theorem forall₂_of_mem_left {α β} {R : α → β → Prop} {l : List α} {r 
 inductive ReqOf : MonoSpec → Req → Prop
   | inc (c : Bool) : ReqOf (.inc c) .inc
   | dec (c : Bool) : ReqOf (.dec c) .dec
-  | pair (ps : List (Nat × Nat)) (l : Bool) (a b : Nat) : (a, b) ∈ ps → ReqOf (.pairs ps l) (.pair a b)
+  | pair (ps : List (Nat × Nat)) (l : PairsKind) (a b : Nat) : (a, b) ∈ ps → ReqOf (.pairs ps l) (.pair a b)
 
 theorem ReqOf.truthy {m : MonoSpec} {r : Req} (h : ReqOf m r) : m.truthy = true := by
   cases h with
@@ -75,12 +75,11 @@ theorem mkCalibrator_basic {c : ModelConfig} {r : Range} {i u : Nat} {cal : Cali
     · cases h
     · simp only [Except.ok.injEq] at h; subst h; exact ⟨rfl, rfl, h0, rfl, rfl⟩
 
-/-- the calibrator has the requested direction / pair — for category pairs PROVIDED they are given
-as a python `list` (otherwise `build_multi_unit_calibration_layers` passes `monotonicities=None`) -/
+/-- the calibrator has the requested direction / pair (category pairs are a python `list` or `tuple`
+by `verify_config`, so `build_multi_unit_calibration_layers` passes them on) -/
 theorem mkCalibrator_meets {c : ModelConfig} {r : Range} {i u : Nat} {cal : Calibrator}
     (h : mkCalibrator c r i u = .ok cal) (hv : verifyFeature (featAt c i) = true) {rq : Req}
-    (hreq : ReqOf (featAt c i).mono rq)
-    (hlist : ∀ ps l, (featAt c i).mono = .pairs ps l → l = true) : calMeets cal rq := by
+    (hreq : ReqOf (featAt c i).mono rq) : calMeets cal rq := by
   generalize hm : (featAt c i).mono = m at hreq
   unfold mkCalibrator at h
   simp only at h
@@ -92,9 +91,14 @@ theorem mkCalibrator_meets {c : ModelConfig} {r : Range} {i u : Nat} {cal : Cali
     | inc cn => simp [verifyFeature, hnb, hm] at hv
     | dec cn => simp [verifyFeature, hnb, hm] at hv
     | pair ps l a b hab =>
-      have hl := hlist ps l hm
-      subst hl
-      simp only [calMeets, hm]
+      have hl : l ≠ .other := by
+        intro e
+        subst e
+        cases ps with
+        | nil => cases hab
+        | cons _ _ => simp [verifyFeature, hnb, hm] at hv
+      have hh : pairsHonoured l = true := by cases l <;> simp_all [pairsHonoured]
+      simp only [calMeets, hm, calPairs, calPairsWith, hh, if_true]
       exact hab
   · cases hreq with
     | inc cn =>
@@ -526,14 +530,13 @@ theorem getD_mem {α} (l : List α) {d : Nat} (a : α) (hd : d < l.length) : l.g
 /-- every calibrator of feature `f` has the requested direction / pair -/
 theorem cals_meet {c : ModelConfig} {rng : Range} {units : Nat → Nat} {l : List Nat} {cals : List Calibrator}
     (hm : mapMExcept (fun i => mkCalibrator c rng i (units i)) l = .ok cals) (hv : verifyConfig c = .ok ())
-    {f : Nat} (hf : f < c.features.length) {rq : Req} (hreq : ReqOf (featAt c f).mono rq)
-    (hlist : ∀ ps l, (featAt c f).mono = .pairs ps l → l = true) :
+    {f : Nat} (hf : f < c.features.length) {rq : Req} (hreq : ReqOf (featAt c f).mono rq) :
     ∀ cal ∈ cals, cal.feature = f → calMeets cal rq := by
   intro cal hcal hcf
   obtain ⟨i, _, hi⟩ := forall₂_of_mem_right (mapMExcept_ok hm) hcal
   have := (mkCalibrator_basic hi).1
   rw [hcf] at this; subst this
-  exact mkCalibrator_meets hi (verify_features hv hf) hreq hlist
+  exact mkCalibrator_meets hi (verify_features hv hf) hreq
 
 theorem rtlBlocks_inv {rule : Feature → Bool} {c : ModelConfig} {bs : List Block}
     (h : rtlBlocksWith rule c = .ok bs) :
@@ -584,26 +587,24 @@ theorem rtlBlock_facts {rule : Feature → Bool} {c : ModelConfig} {bs : List Bl
 
 /-- **key structural lemma (T2).** In a graph produced by the builders, a feature with a
 non-trivial monotonicity meets only calibrators of the requested direction / pair, and every
-lattice or linear axis it feeds is marked increasing — PROVIDED category pairs are a python `list`
-and, for an RTL ensemble, the filing rule puts the feature under `'increasing'`. -/
+lattice or linear axis it feeds is marked increasing — PROVIDED, for an RTL ensemble, the filing rule puts the feature under `'increasing'`. -/
 theorem buildSpecWith_wired {rule : Feature → Bool} {c : ModelConfig} {g : LayerGraph}
     (h : buildSpecWith rule c = .ok g) {f : Nat} (hf : f < c.features.length) {rq : Req}
     (hreq : ReqOf (featAt c f).mono rq)
-    (hlist : ∀ ps l, (featAt c f).mono = .pairs ps l → l = true)
     (hrule : c.kind = .ensemble → c.rtl = true → rule (featAt c f) = true ∧ RtlDraws rule c) :
     Wired g f rq := by
   have ht := hreq.truthy
   cases hk : c.kind with
   | lattice =>
     obtain ⟨hv, cals, hc, rfl⟩ := buildSpec_lattice h hk
-    refine ⟨cals_meet hc hv hf hreq hlist, ?_⟩
+    refine ⟨cals_meet hc hv hf hreq, ?_⟩
     intro b hb d hd hfd
     simp only [List.mem_singleton] at hb; subst hb
     rw [mkLattice_inputs] at hd hfd
     rw [mkLattice_mono_axis _ _ hd, hfd]; exact axisMono_of_truthy ht
   | linear =>
     obtain ⟨hv, cals, hc, rfl⟩ := buildSpec_linear h hk
-    refine ⟨cals_meet hc hv hf hreq hlist, ?_⟩
+    refine ⟨cals_meet hc hv hf hreq, ?_⟩
     intro b hb d hd hfd
     simp only [List.mem_singleton] at hb; subst hb
     rw [mkLinear_inputs] at hd hfd
@@ -612,7 +613,7 @@ theorem buildSpecWith_wired {rule : Feature → Bool} {c : ModelConfig} {g : Lay
     cases hr : c.rtl with
     | false =>
       obtain ⟨hv, cals, cb, hc, _, rfl⟩ := buildSpec_explicit h hk hr
-      refine ⟨cals_meet hc hv hf hreq hlist, ?_⟩
+      refine ⟨cals_meet hc hv hf hreq, ?_⟩
       intro b hb d hd hfd
       simp only [List.mem_map] at hb
       obtain ⟨row, _, rfl⟩ := hb
@@ -621,7 +622,7 @@ theorem buildSpecWith_wired {rule : Feature → Bool} {c : ModelConfig} {g : Lay
     | true =>
       obtain ⟨hv, cals, bs, cb, hc, hbs, _, rfl⟩ := buildSpec_rtl h hk hr
       obtain ⟨hru, hdraw⟩ := hrule hk hr
-      refine ⟨cals_meet hc hv hf hreq hlist, ?_⟩
+      refine ⟨cals_meet hc hv hf hreq, ?_⟩
       intro b hb d hd hfd
       obtain ⟨_, hfacts⟩ := rtlBlock_facts hbs hdraw
       obtain ⟨_, _, _, _, hax⟩ := hfacts b hb
@@ -881,7 +882,7 @@ theorem mkCalibrator_missing {c : ModelConfig} {r : Range} {i u : Nat} {cal : Ca
 /-- a feature whose monotonicity is a list of category pairs and whose calibrator was built is
 categorical (a numeric feature with a list-valued monotonicity raises `ValueError`) -/
 theorem mkCalibrator_pairs_categorical {c : ModelConfig} {r : Range} {i u : Nat} {cal : Calibrator}
-    (h : mkCalibrator c r i u = .ok cal) {ps : List (Nat × Nat)} {l : Bool}
+    (h : mkCalibrator c r i u = .ok cal) {ps : List (Nat × Nat)} {l : PairsKind}
     (hm : (featAt c i).mono = .pairs ps l) : (featAt c i).numBuckets ≠ 0 := by
   intro hnb
   unfold mkCalibrator at h
@@ -889,5 +890,15 @@ theorem mkCalibrator_pairs_categorical {c : ModelConfig} {r : Range} {i u : Nat}
   split_ifs at h with h0 h1
   · simp [hnb] at h1
   · simp [hm, MonoSpec.canonical] at h
+
+theorem buildSpecWith_verify {rule : Feature → Bool} {c : ModelConfig} {g : LayerGraph}
+    (h : buildSpecWith rule c = .ok g) : verifyConfig c = .ok () := by
+  cases hk : c.kind with
+  | lattice => exact (buildSpec_lattice h hk).1
+  | linear => exact (buildSpec_linear h hk).1
+  | ensemble =>
+    cases hr : c.rtl with
+    | false => exact (buildSpec_explicit h hk hr).1
+    | true => exact (buildSpec_rtl h hk hr).1
 
 end Tfl.Premade
